@@ -538,7 +538,11 @@ func (w *World) boot(img *Image) {
 				sys.AddBackground(name, func(c *system.Config, tags map[string]string) gocoro.CoroutineFunc[*t_aio.Submission, *t_aio.Completion, any] {
 					if w.gates[name] {
 						w.gates[name] = false
-						return f(c, tags)
+						// the kernel's own SignalTimeout is 0 so that a gated sweep is always
+						// due; the coroutine itself sees the production default (1s)
+						c2 := *c
+						c2.SignalTimeout = time.Second
+						return f(&c2, tags)
 					}
 					return func(gocoro.Coroutine[*t_aio.Submission, *t_aio.Completion, any]) (any, error) { return nil, nil }
 				})
